@@ -3,6 +3,9 @@
      build <ops>        -> AST after acc.Build(acc.Decompile(p)), names included
      expand <ops>       -> pass.Compile(acc.Decompile(p))
      retranslate <ops>  -> Compile(Translate(Build(Decompile(p)))) " | " its chain
+     rebuild <ops>      -> acc.Build / acc.String / acc.Write called repeatedly on ONE decompiled
+                           program: every call must give the tree `build` gives (Build is a pure
+                           function of the program in the model; the passes memoise in the code)
      names <ops>        -> identifiers after the naming passes, by operand index
      dangling <ops>     -> pass.CheckDanglingInputs(acc.Decompile(p)) *)
 From Coq Require Import String.
@@ -65,6 +68,7 @@ Definition run (line : list N) : list N :=
       | Some p =>
           if str_eqb f $"decompile" then print_outcome print_ir (decompile p)
           else if str_eqb f $"build" then print_outcome print_script (build_program p)
+          else if str_eqb f $"rebuild" then print_outcome print_script (build_program p)
           else if str_eqb f $"expand" then print_outcome print_ops (obind (decompile p) compile)
           else if str_eqb f $"retranslate" then print_outcome print_progchain (obind (build_program p) translate_eval)
           else if str_eqb f $"names" then print_outcome print_table (obind (decompile p) name_operands)
